@@ -851,6 +851,11 @@ def gen_op(rng, nets, vms, images, malformed=False):
             p[k] = gen_mode(rng, "check", 0.9)
     if rng.random() < 0.4:
         p["skip_types"] = " ".join(rng.sample(FULL_TYPES, rng.randint(1, 2)))
+    if rng.random() < 0.25:
+        # per-object customisation of the skipped types (skip_types_<vm>, skip_types_<image>_<vm>, ...): resolved by the
+        # per-object parameters only, may differ from (or re-include what) the suite-wide value (excludes)
+        for k in scoped_keys(rng, "skip_types", nets, use_vms, images):
+            p[k] = " ".join(rng.sample(FULL_TYPES, rng.randint(0, 2)))
     if rng.random() < 0.3:
         for k in scoped_keys(rng, "image_readonly", nets, use_vms, images):
             p[k] = rng.choice(["yes", "yes", "no"])
